@@ -463,3 +463,7 @@ def run(ctx):
     from rules import c19
     n = c19.rule_setters_verbatim(ctx, R="C08/user-list-verbatim", only=("user_mapping_list",))
     ctx.floor("C08/user-list-verbatim", "set_user_mapping_list", n, 1)
+    # caller-supplied mappings (and the auxv values that select the main module) are what the caller configured, in every dump (same rule instance as C19/config-preserved)
+    from rules import c19 as _c19
+    _c19.rule_config_preserved(ctx, R="C08/options-kept", only=("user_mapping_list", "direct_auxv_dump_info"))
+
